@@ -143,12 +143,14 @@ pub fn c12(ctx: &Ctx) -> PropResult {
     for src in ["DISPLAY(1)\n\\\n", "DISPLAY(1) \\\n\n\n", "  \n\tDISPLAY(2)  \n  ", "DISPLAY(3)\r", "\n\n\nDISPLAY(4)", "DISPLAY(\"trailing blanks in a string   \")   ", "x <- \"unterminated at the very end  ", "DISPLAY(5) \\"] {
         all_programs.push(("bytes", src.to_string()));
     }
-    // counts around 8- and 16-bit limits: diagnostics (the exit status must not depend on their number), statements
-    for n in [255usize, 256, 257, 512, 65_536] {
+    // counts around the 8-bit limit and beyond (4096): diagnostics (the exit status must not depend on their number), statements
+    for n in [255usize, 256, 257, 512, 4_096] {
         if n > 600 && ctx.quick() {
             continue;
         }
-        all_programs.push(("count", "@".repeat(n) + "\n"));
+        // (every diagnostic shows its source line: many errors on one long line make quadratic output, so the long
+        // counts stand one per line)
+        all_programs.push(("count", if n > 600 { "@\n".repeat(n) } else { "@".repeat(n) + "\n" }));
         all_programs.push(("count", "IF )\n".repeat(n)));
     }
     for n in [255usize, 256, 257, 300] {
@@ -279,22 +281,76 @@ pub fn c12(ctx: &Ctx) -> PropResult {
         }
         Verdict { tags: vec![format!("class:{}", c.class), format!("mode:{}", c.mode), format!("debug:{}", c.debug), format!("check:{}", c.check)], sample: format!("{} | {}", case.aux, c.src), nontrivial: true, failure }
     });
-    // programs that import a user module standing in the working directory: the same source behaves alike as a file,
-    // with -e and on standard input (the CLI model carries no files: implementation-only oracle, file mode as reference)
+    // programs that import user modules standing in the working directory (beside, below and above one another): in
+    // every mode and with --check the exit status and standard output are the model's (the model runs the same files:
+    // `CLI ... <path> <files>`), and -e / --eval-stdin behave like the file
     let mut verdicts = verdicts;
     {
         let dir = scratch_dir("c12-modules");
-        std::fs::write(dir.join("mod12.ap"), "DISPLAY(\"module top\")\nEXPORT PROCEDURE twelve() {\n RETURN 12\n}\n").unwrap();
-        std::fs::write(dir.join("bad12.ap"), "x <- (1\n").unwrap();
-        for src in ["IMPORT MOD \"mod12.ap\"\nDISPLAY(twelve())\n", "IMPORT \"twelve\" FROM MOD \"./mod12.ap\"\nDISPLAY(twelve() + 1)\n", "DISPLAY(\"a\")\nIMPORT MOD \"bad12.ap\"\nDISPLAY(\"b\")\n", "DISPLAY(\"a\")\nIMPORT MOD \"none12.ap\"\nDISPLAY(\"b\")\n"] {
+        let files: Vec<(&str, &str)> = vec![
+            ("mod12.ap", "DISPLAY(\"module top\")\nEXPORT PROCEDURE twelve() {\n RETURN 12\n}\n"),
+            ("bad12.ap", "x <- (1\n"),
+            ("lexbad12.ap", "DISPLAY(\"never\")\nx = 1\n"),
+            ("rt12.ap", "DISPLAY(\"module top\")\nEXPORT PROCEDURE late() {\n RETURN 1\n}\nDISPLAY(1 / 0)\nDISPLAY(\"unreachable\")\n"),
+            ("sub/m12.ap", "IMPORT MOD \"../sib12.ap\"\nDISPLAY(\"m12 top\")\nEXPORT PROCEDURE viaSub() {\n RETURN sib()\n}\n"),
+            ("sib12.ap", "DISPLAY(\"sib top\")\nEXPORT PROCEDURE sib() {\n RETURN \"sibling\"\n}\n"),
+            ("sub/sib12.ap", "DISPLAY(\"decoy below\")\nEXPORT PROCEDURE sib() {\n RETURN \"decoy\"\n}\n"),
+            ("empty12.ap", ""),
+            ("input12.ap", "EXPORT PROCEDURE ask() {\n RETURN INPUT()\n}\n"),
+        ];
+        for (p, c) in &files {
+            let full = dir.join(p);
+            std::fs::create_dir_all(full.parent().unwrap()).unwrap();
+            std::fs::write(&full, c).unwrap();
+        }
+        let model_files: Vec<String> = files.iter().map(|(p, c)| format!("h{}=f{}", hex(p.as_bytes()), hex(c.as_bytes()))).collect();
+        let mut d = Driver::spawn(&ctx.driver);
+        for src in [
+            "IMPORT MOD \"mod12.ap\"\nDISPLAY(twelve())\n",
+            "IMPORT \"twelve\" FROM MOD \"./mod12.ap\"\nDISPLAY(twelve() + 1)\n",
+            "DISPLAY(\"a\")\nIMPORT MOD \"bad12.ap\"\nDISPLAY(\"b\")\n",
+            "DISPLAY(\"a\")\nIMPORT MOD \"lexbad12.ap\"\nDISPLAY(\"b\")\n",
+            "DISPLAY(\"a\")\nIMPORT MOD \"rt12.ap\"\nDISPLAY(late())\n",
+            "DISPLAY(\"a\")\nIMPORT MOD \"none12.ap\"\nDISPLAY(\"b\")\n",
+            "IMPORT MOD \"sub/m12.ap\"\nDISPLAY(viaSub())\n",
+            "IMPORT MOD \"sub/../sib12.ap\"\nDISPLAY(sib())\n",
+            "IMPORT MOD \"empty12.ap\"\nDISPLAY(\"after empty\")\n",
+            "IMPORT MOD \"mod12.ap\"\nIMPORT MOD \"mod12.ap\"\nDISPLAY(twelve())\nDISPLAY(1 / 0)\n",
+            "IMPORT \"nope\" FROM MOD \"mod12.ap\"\nDISPLAY(\"b\")\n",
+            "IMPORT MOD \"sub\"\nDISPLAY(\"b\")\n",
+        ] {
             std::fs::write(dir.join("main.ap"), src).unwrap();
-            let file = run_binary(&["main.ap"], None, &dir);
-            let eval = run_binary(&["-e", src], None, &dir);
-            let stdin = run_binary(&["--eval-stdin"], Some(src.as_bytes()), &dir);
+            let reference = run_binary(&["main.ap"], None, &dir);
             let mut failure = None;
-            for (how, r) in [("-e", &eval), ("--eval-stdin", &stdin)] {
-                if failure.is_none() && (r.stdout != file.stdout || (r.code == Some(0)) != (file.code == Some(0))) {
-                    failure = fail("impl-vs-oracle", Case::new(Kind::Run, src.to_string()).aux(format!("mode={how} (module files beside the program)")), format!("exit={:?} stdout={}", r.code, hex(&r.stdout)), format!("file mode: exit={:?} stdout={}", file.code, hex(&file.stdout)), format!("the same source behaves differently with {how} than as a file"));
+            for (mode, path) in [("file", "main.ap"), ("eval", ""), ("evalStdin", "")] {
+                for check in [false, true] {
+                    let mut args: Vec<&str> = match mode {
+                        "file" => vec!["main.ap"],
+                        "eval" => vec!["-e", src],
+                        _ => vec!["--eval-stdin"],
+                    };
+                    if check {
+                        args.push("--check");
+                    }
+                    let r = run_binary(&args, if mode == "evalStdin" { Some(src.as_bytes()) } else { None }, &dir);
+                    let reply = d.ask(&format!("CLI {mode} none {} h{} h h{} {}", if check { 1 } else { 0 }, hex(src.as_bytes()), hex(path.as_bytes()), model_files.join(",")));
+                    let f: Vec<&str> = reply.split(' ').collect();
+                    let case = Case::new(Kind::Run, src.to_string()).aux(format!("mode={mode} check={check} (module files beside the program)"));
+                    let impl_rec = format!("exit={:?} stdout={} stderr_nonempty={}", r.code, hex(&r.stdout), !r.stderr.is_empty());
+                    if failure.is_some() {
+                        continue;
+                    }
+                    if f.len() < 3 {
+                        failure = fail("model-disagreement", case, impl_rec, reply.clone(), "model did not answer".into());
+                    } else if (r.code == Some(0)) != (f[0] == "0") {
+                        failure = fail("model-disagreement", case, impl_rec, reply.clone(), "exit status (zero / non-zero) differs from the model".into());
+                    } else if String::from_utf8_lossy(&r.stdout) != unhex_str(f[1].trim_start_matches('h')) {
+                        failure = fail("model-disagreement", case, impl_rec, reply.clone(), "standard output differs from the program's output predicted by the model".into());
+                    } else if r.code != Some(0) && r.stderr.is_empty() {
+                        failure = fail("impl-vs-oracle", case, impl_rec, reply.clone(), "non-zero exit without diagnostics on standard error".into());
+                    } else if !check && (r.stdout != reference.stdout || (r.code == Some(0)) != (reference.code == Some(0))) {
+                        failure = fail("impl-vs-oracle", case, impl_rec, format!("file mode: exit={:?} stdout={}", reference.code, hex(&reference.stdout)), "the same source behaves differently in this mode than as a file".into());
+                    }
                 }
             }
             verdicts.push(Verdict { tags: vec!["class:module".into()], sample: src.to_string(), nontrivial: true, failure });
